@@ -604,6 +604,14 @@ inline std::vector<Shape> all_shapes() {
         v.push_back(s);
     }
     {
+        // two keys in the root border: two removes empty the root together
+        Shape s;
+        s.name = "B2";
+        s.inserts = {"10", "20"};
+        s.pal = {{"in", "10"}, {"in2", "20"}, {"new", "15"}, {"new2", "05"}, {"long", P8() + "a"}};
+        v.push_back(s);
+    }
+    {
         Shape s;
         s.name = "B3";
         s.inserts = {"10", "20", "30"};
@@ -745,6 +753,70 @@ inline std::vector<Shape> all_shapes() {
         v.push_back(s);
     }
     return v;
+}
+
+// ---------------------------------------------------------------------------------------------------------------------------
+// C12: put with an inserted_node_info, compared with the version words of all border nodes before and after the call.
+// Returns "" or "symptom|detail". `present`: the key is stored already (the put overwrites, or a unique put fails).
+// ---------------------------------------------------------------------------------------------------------------------------
+inline std::map<border_node*, uint64_t> border_version_words(tree_instance* ti) {
+    WalkOut w;
+    walk_tree(w, ti);
+    std::map<border_node*, uint64_t> m;
+    for (auto* b : w.borders) {
+        auto body = b->version_.body_.load();
+        uint64_t raw = 0;
+        memcpy(&raw, &body, 8);
+        m[b] = raw;
+    }
+    return m;
+}
+
+inline std::string put_info_check(Token tk, tree_instance* ti, const std::string& key, const std::string& v, bool unique, bool present, status& st) {
+    auto before = border_version_words(ti);
+    auto* const untouched = reinterpret_cast<node_version64*>(0x1); // NOLINT
+    inserted_node_info info{untouched, untouched};
+    st = t_put(tk, ti, key, v, unique, &info);
+    auto after = border_version_words(ti);
+    std::set<border_node*> changed, created;
+    border_node* split_node = nullptr;
+    for (auto& kv : after) {
+        auto it = before.find(kv.first);
+        if (it == before.end()) {
+            created.insert(kv.first);
+        } else if (it->second != kv.second) {
+            changed.insert(kv.first);
+            uint64_t vs_b = (it->second >> 32) & ((1ULL << 29) - 1), vs_a = (kv.second >> 32) & ((1ULL << 29) - 1);
+            if (vs_b != vs_a) split_node = kv.first;
+        }
+    }
+    if (present) {
+        if (!changed.empty() || !created.empty()) return "putinfo:overwrite_changed_version|a put on an existing key changed a border version or created a node";
+        return "";
+    }
+    if (st != status::OK) return std::string("putinfo:status|insert of a new key returned ") + st_name(st);
+    border_node* mod_node = nullptr;
+    for (auto& kv : after) {
+        if (kv.first->get_version_ptr() == info.modified_nvp) mod_node = kv.first;
+    }
+    if (mod_node == nullptr) return "putinfo:modified_not_a_border|reported modified node is not a reachable border node";
+    std::set<border_node*> want_changed = changed;
+    if (before.count(mod_node) == 0) {
+        if (!before.empty()) return "putinfo:modified_is_new_node|reported modified node did not exist before the call";
+    } else if (changed.count(mod_node) == 0) {
+        return "putinfo:modified_unchanged|reported modified node kept its version word";
+    }
+    want_changed.erase(mod_node);
+    if (!want_changed.empty()) return "putinfo:unreported_change|" + std::to_string(want_changed.size()) + " other pre-existing border node(s) changed their version word";
+    if (split_node != nullptr) {
+        if (info.created_nvp == nullptr) return "putinfo:split_not_reported|a border split but created_nvp is null";
+        if (split_node->next_ == nullptr || split_node->next_->get_version_ptr() != info.created_nvp) return "putinfo:created_wrong|created_nvp is not the new right sibling of the split node";
+        if (created.count(split_node->next_) == 0) return "putinfo:created_not_new|created_nvp designates a node that existed before";
+        if (mod_node != split_node) return "putinfo:modified_not_split_node|modified_nvp is not the node that split";
+    } else if (info.created_nvp != nullptr) {
+        return "putinfo:created_without_split|created_nvp set although no border split";
+    }
+    return "";
 }
 
 inline const Shape* find_shape(const std::vector<Shape>& v, const std::string& n) {
